@@ -175,6 +175,34 @@ example : (crun env2 tk [st1, st2s, st4s, st5] W0).issued = [2, 1] ∧ (crun env
   decide +kernel
 example : CStepsOK env2 tk [st1, st2s, st4s, st5] W0 := cstepsOKb_sound _ _ _ _ (by decide +kernel)
 
+/-- why delivery must be exactly-once (the property's quantifier names "delivered twice"): the SAME hand-over message
+    delivered a second time after the new holder has created re-installs the stale counter, and the next create re-issues
+    a nonce — kernel-evaluated on the model (alice creates 1, hands over to bob with counter 1, delivery, bob creates 2,
+    the same message is delivered again, bob creates: 2 again).  An immediate redelivery is harmless
+    (`redelivery_same_counter`); exactly-once delivery is the protocol's guarantee (DESIGN App. C, E4). -/
+def bobCreateOn (A : Accts) : Option (Bytes × Accts) :=
+  match exec { env2 with self := 0 } .nftCreate bobCreate { accts := A } with
+  | .ok (out, c') => (match out.ret with | [b] => some (b, c'.accts) | _ => none)
+  | _ => none
+def deliverOn (A : Accts) (m : HMsg) : Option Accts :=
+  match exec { env2 with self := 0 } .nftCreateRoleTransfer (deliverCall tk m) { accts := A } with
+  | .ok (_, c') => some c'.accts
+  | _ => none
+example :
+    let w := crun env2 tk [st1, st2] W0
+    (match w.flight, w.shards[0]? with
+     | [m], some A0 =>
+       (match deliverOn A0 m with
+        | some A1 =>
+          (match bobCreateOn A1 with
+           | some (n1, A2) =>
+             (match deliverOn A2 m with          -- the same message, a second time
+              | some A3 => (match bobCreateOn A3 with | some (n2, _) => some (n1, n2) | none => none)
+              | none => none)
+           | none => none)
+        | none => none)
+     | _, _ => none) = some ([2], [2]) := by decide +kernel
+
 /-- the output transfer a same-shard hand-over still emits is not a message: its delivery is refused in every state -/
 theorem same_shard_output_refused (e : Env) (tok : Bytes) (m : HMsg) (A : Accts) (out : VMOutput) (ctx' : Ctx)
     (hp : present e.nshards (shardOf e.nshards m.dest) m.prev = true) :
